@@ -300,6 +300,7 @@ func ReleaseMapContext(c *MapContext) {
 	if cap(c.Buf) > maxPooledMapBufSize {
 		c.Buf = nil
 	}
+	verifPoisonMapCtx(c)
 	mapContextPool.Put(c)
 }
 
